@@ -208,6 +208,8 @@ class Analysis:
             if pv[0] == "proj" and pv[2] == ("dc", 1) and pv[1][0] == "sliceget" and f == 0:
                 sg = pv[1]
                 return ("ref", ("index", ("deref", sg[1]), sg[2]))
+            if pv[0] == "proj" and pv[2] == ("dc", 1) and pv[1][0] == "slicegetr" and f == 0:
+                return pv[1][1]     # the sub-slice value itself
             if pv[0] == "agg" and f < len(pv[2]):
                 return pv[2][f]
             if pv[0] == "checked":
@@ -432,11 +434,21 @@ class Analysis:
                     return ("slicefrom", S, rng[2][0])
                 if kind == "to":
                     return ("sliceto", S, rng[2][0])
-        if base == "core::slice::{impl#0}::get" and len(args) == 2:
+        if base in ("core::slice::{impl#0}::get", "core::slice::{impl#0}::get_mut") and len(args) == 2:
             tk = self.vtype.get(args[1])
-            if tk is not None and tk["k"] == "uint":
+            if tk is not None and tk["k"] == "uint" and base.endswith("::get"):
                 # Some(&S[i]) iff i < len(S): the payload is a reference to that element
                 return ("sliceget", args[0], args[1])
+            rng = args[1]
+            if rng[0] == "agg" and rng[1] in self.RANGE_ADT:
+                kind = self.RANGE_ADT[rng[1]]
+                # Some(sub-slice) iff the range lies inside S
+                if kind == "range":
+                    return ("slicegetr", ("slice", args[0], rng[2][0], rng[2][1]))
+                if kind == "from":
+                    return ("slicegetr", ("slicefrom", args[0], rng[2][0]))
+                if kind == "to":
+                    return ("slicegetr", ("sliceto", args[0], rng[2][0]))
         if base == "core::slice::{impl#0}::is_empty" and len(args) == 1:
             v = ("bin", "Eq", self.len_of(args[0]), ("const", 0, "usize"))
             return v
